@@ -24,8 +24,7 @@ MU = 'mystic.munge'
 
 
 def _ref(ctx, f, src, construct, what):
-    got = SB.summary(f.node)
-    want = SB.summary_of_source(src)
+    got, want = SB.agree(f.node, src)
     ctx.stats['terms_compared'] += len(got)
     ctx.check(got == want, construct, what, '%s differs from its documented behaviour: %s' % (construct, SB.diff(got, want)), f, f.node)
 
@@ -78,15 +77,33 @@ def parallel_arrays_move_together(ctx):
             if not stores:
                 continue
             groups += 1
+            # canonical terms with the block's plain locals substituted (nx = numpy.ndim(self._x) ...), then the array's own
+            # name abstracted: the three stores must be one and the same expression of "their" array
+            bld = T.Builder()
             norm = {}
-            for a, sts in stores.items():
-                txt = ''.join(unparse(sts[-1]).split())
-                for old, new in ((a, '_A'), ({'_x': 'nx', '_y': 'ny', '_id': 'ni'}[a], 'nA')):
-                    txt = txt.replace(old, new)
-                norm[a] = txt
+            last = {a: sts[-1] for a, sts in stores.items()}
+
+            def abstract(t_, a):
+                if isinstance(t_, tuple):
+                    if len(t_) == 3 and t_[0] == 'attr' and t_[2] == a:
+                        return ('attr', abstract(t_[1], a), '_A')
+                    return tuple(abstract(x, a) for x in t_)
+                return t_
+            pending = {}
+            for st in blk:
+                if isinstance(st, ast.Assign) and len(st.targets) == 1 and isinstance(st.targets[0], ast.Subscript) and isinstance(st.targets[0].value, ast.Name):
+                    # x[i] = v on a local array: part of the value later stored back
+                    nm = st.targets[0].value.id
+                    bld.env[nm] = ('updated', T.simp(bld.t(st.targets[0].value)), T.simp(bld.t(st.targets[0].slice)), T.simp(bld.t(st.value)))
+                    continue
+                for a, lst in last.items():
+                    if st is lst:
+                        norm[a] = abstract(('store', T.simp(bld.t(st.targets[0])), T.simp(bld.t(st.value))), a)
+                if isinstance(st, ast.Assign) and all(isinstance(tg_, (ast.Name, ast.Tuple)) for tg_ in st.targets):
+                    bld.exec_stmt(st)
             good = set(stores) == {'_x', '_y', '_id'} and len(set(norm.values())) == 1
             ctx.check(good, 'Monitor.%s#branch@%d' % (meth, blk[0].lineno if blk else 0), '_x, _y, _id handled identically in this branch',
-                      'the parallel arrays are indexed differently: %s' % norm, f, (stores.get('_x') or stores.get('_y') or stores.get('_id'))[-1])
+                      'the parallel arrays are indexed differently: %s' % {k: T.show(v)[:80] for k, v in norm.items()}, f, (stores.get('_x') or stores.get('_y') or stores.get('_id'))[-1])
         ctx.need(groups >= 3, 'Monitor.%s: expected >= 3 index branches, found %d' % (meth, groups))
     gi = M.methods['__getitem__']
     r = [s for s in walk_no_nested(gi.node) if isinstance(s, ast.Return) and 'self.x[y]' in unparse(s.value)]
